@@ -292,6 +292,12 @@ fn parse_sequence_header(obu_data: &[u8], header_size: usize) -> Option<Av1Confi
     // seq_profile: 3 bits
     let seq_profile = reader.read_bits(3)? as u8;
 
+    // seq_profile is a 3-bit field; values above 3 come straight from the input bytes and
+    // mean "not a usable sequence header", not a broken internal invariant.
+    if seq_profile > 3 {
+        return None;
+    }
+
     // INV-204: Sequence profile must be valid (0-3)
     assert_invariant!(
         seq_profile <= 3,
